@@ -105,7 +105,7 @@ theorem table_back (dur div : Nat) (hdiv : 0 < div) (i : Nat) (d : Rat) (sd : Sy
     apply zero_of_scaled_small _ 512 (by norm_num)
     · have := den_one_comb d 512 (dur : Int) (div : Int) (by simpa using hden)
       simpa using this
-    · unfold eps at hclose; linarith
+    · unfold eps Gen.C11.estimateEps at hclose; linarith
   congr 1; linarith
 
 /-! ### the tuplet branch -/
@@ -132,6 +132,7 @@ theorem tuplet_back (dur div : Nat) (hdiv : 0 < div) (hdur : 0 < dur) (hq : ¬ (
     (sd : SymDur) (h : tupletGuess (dur : Rat) ((dur : Rat) / div) (eps / div) = some (.single sd)) :
     symbolicToNumeric sd div = some (dur : Rat) := by
   unfold tupletGuess at h
+  rw [show Gen.C11.tupletFirstNormal = 2 from rfl] at h
   simp only at h
   split at h
   · rename_i s ss hs hss
@@ -156,7 +157,7 @@ theorem tuplet_back (dur div : Nat) (hdiv : 0 < div) (hdur : 0 < dur) (hq : ¬ (
         -- |x| ≤ eps/div * dur ≤ 4 eps
         have hx : |(n : Rat) * s * div - a * dur| ≤ 4 / 1000 := by
           have : eps / (div : Rat) * dur ≤ 4 / 1000 := by
-            unfold eps
+            unfold eps Gen.C11.estimateEps
             rw [div_mul_eq_mul_div, div_le_iff₀ hdivq]
             linarith
           linarith
@@ -196,6 +197,7 @@ theorem rest_back (dur div : Nat) (hdiv : 0 < div) (hdur : 0 < dur) (c : Bool) (
     (h : estimateRest (dur : Rat) ((dur : Rat) / div) (eps / div) c = some (.single sd)) :
     symbolicToNumeric sd div = some (dur : Rat) := by
   unfold estimateRest at h
+  rw [show Gen.C11.tupletMaxQuarters = (4 : Rat) from rfl] at h
   simp only at h
   split at h
   · split at h
@@ -311,7 +313,7 @@ theorem tupletGuess_total (dur div : Nat) (hdiv : 0 < div) (hdur : 0 < dur) (hq 
   obtain ⟨ss, hss⟩ : ∃ ss, SYM_STRAIGHT_DURS[searchsortedLeft STRAIGHT_DURS ((dur : Rat) / div)]? = some ss :=
     ⟨_, List.getElem?_eq_getElem (by omega)⟩
   obtain ⟨_, hden, hspos⟩ := straight_row _ s ss hs hss
-  have htol : (0 : Rat) < eps / div := by unfold eps; positivity
+  have htol : (0 : Rat) < eps / div := by unfold eps Gen.C11.estimateEps; positivity
   -- the loop stops at 64·dur at the latest
   have hstop : ¬ (absR (((64 * dur : Nat) : Rat) * s / ((dur : Rat) / div) -
       ((roundHalfEven (((64 * dur : Nat) : Rat) * s / ((dur : Rat) / div)) : Int) : Rat)) > eps / div) := by
@@ -332,11 +334,13 @@ theorem tupletGuess_total (dur div : Nat) (hdiv : 0 < div) (hdur : 0 < dur) (hq 
     omega
   refine ⟨(ss.1, 0, some a.toNat, some n), ?_⟩
   unfold tupletGuess
+  rw [show Gen.C11.tupletFirstNormal = 2 from rfl]
   simp only [hs, hss, hr, hapos, if_false]
 
 theorem estimateRest_total (dur div : Nat) (hdiv : 0 < div) (hdur : 0 < dur) (c : Bool) :
     ∃ e, estimateRest (dur : Rat) ((dur : Rat) / div) (eps / div) c = some e := by
   unfold estimateRest
+  rw [show Gen.C11.tupletMaxQuarters = (4 : Rat) from rfl]
   simp only
   have hl1 : 0 < COMPOSITE_DURS.length := by decide
   have hl2 : COMPOSITE_DURS.length = SYM_COMPOSITE_DURS.length := by decide
@@ -389,6 +393,7 @@ theorem estimate_false_shape (dur : Rat) (div : Nat) (e : Est) (h : estimate dur
         · split at h
           · right; exact ⟨_, by simpa using h.symm⟩
           · unfold estimateRest at h
+            rw [show Gen.C11.tupletMaxQuarters = (4 : Rat) from rfl] at h
             simp only at h
             split at h
             · split at h
@@ -396,6 +401,7 @@ theorem estimate_false_shape (dur : Rat) (div : Nat) (e : Est) (h : estimate dur
               · split at h
                 · left; simpa using h.symm
                 · unfold tupletGuess at h
+                  rw [show Gen.C11.tupletFirstNormal = 2 from rfl] at h
                   simp only at h
                   split at h
                   · split at h
@@ -483,6 +489,7 @@ theorem composite_back (dur div : Nat) (hdiv : 0 < div) (hbig : div ≤ 10995116
       · split at h
         · simp at h
         · unfold estimateRest at h
+          rw [show Gen.C11.tupletMaxQuarters = (4 : Rat) from rfl] at h
           simp only at h
           split at h
           · rename_i cf sc hcf hsc
@@ -511,13 +518,14 @@ theorem composite_back (dur div : Nat) (hdiv : 0 < div) (hbig : div ≤ 10995116
                         _ = |(dur : Rat) - cf * div| + |ce - cf| * div := by rw [abs_mul, abs_of_pos hdivq]
                     have t2 : |ce - cf| * (div : Rat) ≤ 1 / 1125899906842624 * 1099511627776 :=
                       mul_le_mul hnear hbq (le_of_lt hdivq) (by norm_num)
-                    unfold eps at hclose
+                    unfold eps Gen.C11.estimateEps at hclose
                     norm_num at t2
                     linarith
                 congr 1; linarith
             · split at h
               · simp at h
               · unfold tupletGuess at h
+                rw [show Gen.C11.tupletFirstNormal = 2 from rfl] at h
                 simp only at h
                 split at h
                 · split at h
